@@ -788,6 +788,69 @@ def check_extra_fields_of_programs_that_print_alike(h: Harness, tmp: str):
                    f"{got[j] if j < len(got) else 'nothing'}, the row's own program gives {want[j] if j < len(want) else 'nothing'}", [vals, j])
 
 
+def check_new_recorder_on_an_existing_path(h: Harness, tmp: str):
+    """a recorder opened on a path that already holds the log of an EARLIER run (the same csv_path used twice): the file is this run's
+    header and this run's rows -- nothing of the other run, whose columns may have been different"""
+    rng = h.rng
+    for trial in range(h.n(8, 60)):
+        path = os.path.join(tmp, f"reopen{len(os.listdir(tmp))}.csv")
+        k1, k2 = rng.choice([(1, 1), (1, 2), (2, 1), (3, 2)])
+        rows_written = []
+        try:
+            for run_no, k in enumerate((k1, k2)):
+                problem = MultiObjectiveProblem([False] * k, lambda p: [float(c) for c in p.fit])
+                recorder = CSVSearchRecorder(path, problem, only_record_best_individuals=False)
+                tracker = MultiObjectiveProgressTracker(problem, recorders=[recorder])
+                n = rng.randint(1, 4)
+                for j in range(n):
+                    tracker.evaluate([make_ind(100 * run_no + j, 4 * j, [rng.randint(0, 9) for _ in range(k)])])
+                recorder.csv_file.flush()
+                recorder.csv_file.close()
+                rows_written.append((k, n))
+            with open(path, newline="") as f:
+                rows = list(csv.reader(f))
+        except Exception as e:  # noqa: BLE001
+            h.fail("CSVSearchRecorder.__init__", "raises", f"second recorder on an existing path: {type(e).__name__}: {e}", [trial])
+            continue
+        h.count("new-recorder-on-an-existing-path")
+        h.seen(f"reopen:{trial}:{rows_written}", nontrivial=True)
+        k, n = rows_written[-1]
+        widths = {len(r) for r in rows}
+        if len(rows) != n + 1 or len(widths) != 1 or not rows or not any("itness" in c for c in rows[0]):
+            h.fail("CSVSearchRecorder.__init__", "column-not-faithful",
+                   f"a recorder ({k} objectives) opened on the path of an earlier run's log ({rows_written[0][0]} objectives, {rows_written[0][1]} rows) and given "
+                   f"{n} registrations left a file of {len(rows)} lines with row widths {sorted(widths)}; expected its own header and its own {n} rows", [trial, rows_written])
+
+
+def check_one_object_twice_in_a_batch(h: Harness, tmp: str):
+    """the same individual OBJECT twice in one batch handed to the tracker (selection with replacement, an elite next to itself): in
+    all-rows mode every registration has its row"""
+    rng = h.rng
+    for trial in range(h.n(10, 80)):
+        path = os.path.join(tmp, f"twice{len(os.listdir(tmp))}.csv")
+        multi = trial % 2 == 1
+        problem = MultiObjectiveProblem([False, True], lambda p: [float(p.fit[0]), 1.0]) if multi else SingleObjectiveProblem(lambda p: float(p.fit[0]), minimize=trial % 4 == 0)
+        try:
+            recorder = CSVSearchRecorder(path, problem, only_record_best_individuals=False)
+            tracker = (MultiObjectiveProgressTracker if multi else SingleObjectiveProgressTracker)(problem, recorders=[recorder])
+            inds = [make_ind(j, 4 * j, [rng.randint(0, 9)]) for j in range(rng.randint(2, 4))]
+            batch = [rng.choice(inds) for _ in range(rng.randint(3, 7))] + [inds[0], inds[0]]
+            tracker.evaluate(batch)
+            recorder.csv_file.flush()
+            recorder.csv_file.close()
+            with open(path, newline="") as f:
+                rows = list(csv.reader(f))
+        except Exception as e:  # noqa: BLE001
+            h.fail("CSVSearchRecorder.register", "raises", f"one object twice in a batch: {type(e).__name__}: {e}", [trial])
+            continue
+        h.count("one-object-twice-in-a-batch")
+        h.seen(f"twice:{trial}:{[i.genotype for i in batch]}", nontrivial=True)
+        if len(rows) - 1 != len(batch):
+            h.fail("CSVSearchRecorder.register", "column-not-faithful",
+                   f"{'multi' if multi else 'single'}-objective tracker, all-rows log: one batch of {len(batch)} individuals (objects {[i.genotype for i in batch]}, some of "
+                   f"them the same object more than once) left {len(rows) - 1} rows", [trial, [i.genotype for i in batch]])
+
+
 TINY_SCALES = [("1+k*2^-52", lambda k: 1.0 + k * 2.0 ** -52), ("2e5+k*1e-6", lambda k: 200000.0 + k * 1e-6), ("1e12+k*2^-12", lambda k: 1e12 + k * 2.0 ** -12),
                ("-(3+k*1e-12)", lambda k: -(3.0 + (50 - k) * 1e-12)), ("k*1e-300", lambda k: k * 1e-300), ("k", float)]
 
@@ -841,6 +904,8 @@ def run(h: Harness):
     try:
         check_extreme_first(h, tmp)
         check_users_own_order(h, tmp)
+        check_new_recorder_on_an_existing_path(h, tmp)
+        check_one_object_twice_in_a_batch(h, tmp)
         check_extra_fields_of_programs_that_print_alike(h, tmp)
         check_tiny_improvements(h, tmp)
         check_second_search_same_log(h, tmp)
